@@ -1039,6 +1039,89 @@ theorem source_executeProposal_logs_only :
     ["if err = upgrader.SubmitDescriptor(&proposal.Content.Upgrade.Descriptor); err != nil { ctx.Logger().Error(\"failed to locally apply the upgrade descriptor\", \"err\", err, \"descriptor\", proposal.Content.Upgrade.Descriptor, ) }",
      "if err = upgrader.CancelUpgrade(&upgradeProposal.Descriptor); err != nil { ctx.Logger().Error(\"failed to locally cancel the upgrade\", \"err\", err, \"descriptor\", upgradeProposal.Descriptor, ) }"] := rfl
 
+/-! ## Process-local state of the applications
+
+Replicas agree only if block execution is a function of the consensus state and the block: an
+application object that remembered something IN MEMORY from earlier calls (a cache, a memoised
+lookup, a counter) would make a replica that was restarted from disk, or restored from a checkpoint,
+execute the same block differently from one that kept running.  `tools/gen muxfacts`
+(`appstate.go`) lists every field of every type in `apps/**` that has a block or transaction hook,
+and every statement in a method of such a type that writes through the receiver.  Both lists are
+pinned here with the reason why each entry cannot carry history: a new field, or a new write
+through the receiver, breaks the build until it has been read and classified. -/
+
+/-- Why a field of an application object cannot carry execution history. -/
+inductive AppField where
+  /-- handle on the shared application state / message dispatcher / node-local notifier, set at
+  construction; holds no data of its own that execution reads -/
+  | wiring
+  /-- fixed at construction or in `OnRegister` (before any block) from constants of the code -/
+  | constant
+  /-- chosen once as a function of the consensus parameters in state (`doInitBackend`), equal on
+  every replica whenever it is chosen -/
+  | fromState
+  /-- bookkeeping of the supplementary sanity checker, which never writes consensus state and is
+  not registered on production nodes -/
+  | sanityOnly
+deriving DecidableEq, Repr
+
+def expectedAppFields : List (String × AppField) := [
+  ("beacon.Application.backend : internalBackend", .fromState),
+  ("beacon.backendInsecure.app : *Application", .wiring),
+  ("beacon.backendVRF.app : *Application", .wiring),
+  ("governance.Application.md : api.MessageDispatcher", .wiring),
+  ("governance.Application.state : api.ApplicationState", .wiring),
+  ("keymanager.Application.exts : []api.Extension", .constant),
+  ("keymanager.Application.extsByMethod : map[transaction.MethodName]api.Extension", .constant),
+  ("keymanager.Application.methods : []transaction.MethodName", .constant),
+  ("keymanager.Application.state : api.ApplicationState", .wiring),
+  ("keymanager/churp.churpExt.appName : string", .constant),
+  ("keymanager/churp.churpExt.state : tmapi.ApplicationState", .wiring),
+  ("keymanager/secrets.secretsExt.appName : string", .constant),
+  ("keymanager/secrets.secretsExt.state : tmapi.ApplicationState", .wiring),
+  ("registry.Application.md : api.MessageDispatcher", .wiring),
+  ("registry.Application.state : api.ApplicationState", .wiring),
+  ("roothash.Application.ecn : api.ExecutorCommitmentNotifier", .wiring),
+  ("roothash.Application.md : api.MessageDispatcher", .wiring),
+  ("roothash.Application.state : api.ApplicationState", .wiring),
+  ("scheduler.Application.md : api.MessageDispatcher", .wiring),
+  ("scheduler.Application.state : api.ApplicationState", .wiring),
+  ("staking.Application.md : api.MessageDispatcher", .wiring),
+  ("staking.Application.state : api.ApplicationState", .wiring),
+  ("supplementarysanity.Application.checkHeight : int64", .sanityOnly),
+  ("supplementarysanity.Application.currentInterval : int64", .sanityOnly),
+  ("supplementarysanity.Application.interval : int64", .sanityOnly),
+  ("supplementarysanity.Application.state : api.ApplicationState", .wiring),
+  ("vault.Application.md : api.MessageDispatcher", .wiring),
+  ("vault.Application.state : api.ApplicationState", .wiring)
+]
+
+/-- **No application keeps execution history in memory (fields).**  The regenerated list of
+fields of all application types equals the classified table. -/
+theorem app_state_fields_classified :
+    Generated.MuxFacts.appStateFields = expectedAppFields.map (·.1) := by decide
+
+def expectedAppWrites : List (String × AppField) := [
+  ("beacon.Application.doInitBackend: app.backend = &backendInsecure{app}", .fromState),
+  ("beacon.Application.doInitBackend: app.backend = &backendVRF{app}", .fromState),
+  ("keymanager.Application.registerExtensions: app.exts = append(app.exts, ext)", .constant),
+  ("keymanager.Application.registerExtensions: app.extsByMethod[m] = ext", .constant),
+  ("keymanager.Application.registerExtensions: app.methods = append(app.methods, m)", .constant),
+  ("supplementarysanity.Application.endBlockImpl: app.checkHeight = newInterval*app.interval + offset", .sanityOnly),
+  ("supplementarysanity.Application.endBlockImpl: app.currentInterval = newInterval", .sanityOnly)
+]
+
+/-- **No application keeps execution history in memory (writes).**  Every statement that writes
+through the receiver of an application method is known and classified. -/
+theorem app_state_writes_classified :
+    Generated.MuxFacts.appStateWrites = expectedAppWrites.map (·.1) := by decide
+
+/-- No block or transaction hook of a production application writes to its own object: the only
+writes outside construction-time wiring are the backend choice (a function of the state) and the
+sanity checker's interval bookkeeping. -/
+theorem app_state_writes_never_history :
+    expectedAppWrites.all (fun e => e.2 == .fromState || e.2 == .constant || e.2 == .sanityOnly) = true := by decide
+
 /-! ## The regenerated map-range site ledger
 
 `tools/gen maprange` lists (with go/types) every place in the consensus-critical packages where
